@@ -448,6 +448,61 @@ def as_len_test(c, v=True):
     return None
 
 
+def len_interval(c, v=True):
+    """interpret a branch condition as a bound on a length: -> (x, lo, hi) meaning lo <= len(x) <= hi (hi None = unbounded), or None."""
+    t = as_len_test(c, v)
+    if t is not None:
+        return (t[0], 0, 0) if t[1] == 'empty' else (t[0], 1, None)
+
+    def size_of(t):
+        if t[0] == 'call' and t[1] == ('ext', 'LEN') and len(t[2]) == 1:
+            return t[2][0]
+        if t[0] == 'attr' and t[2] == 'size':
+            return t[1]
+        return None
+    if c[0] == 'not':
+        return len_interval(c[1], not v)
+    if c[0] == 'cmp' and c[1] in ('==', '<', '<='):
+        a, b = c[2], c[3]
+        for lhs, rhs, flipped in ((a, b, False), (b, a, True)):
+            x = size_of(lhs)
+            if x is None or rhs[0] != 'num' or rhs[1].denominator != 1:
+                continue
+            k, op = int(rhs[1]), c[1]
+            if op == '==':
+                return (x, k, k) if v else None
+            if not flipped:       # len op k
+                hi = k - 1 if op == '<' else k
+                return (x, 0, hi) if v else (x, hi + 1, None)
+            lo = k + 1 if op == '<' else k      # k op len
+            return (x, max(lo, 0), None) if v else (x, 0, lo - 1)
+    return None
+
+
+def strip_ndarray(t):
+    """x.to_numpy(), x.values, np.array(x), np.asarray(x) hold the same numbers in the same order as x"""
+    def f(z):
+        if z[0] == 'call' and z[1] in (('meth', 'to_numpy'), ('ext', 'ARRAY'), ('ext', 'numpy.asarray'), ('meth', 'tolist'), ('meth', 'to_list')) and len(z[2]) == 1 and not z[3]:
+            return z[2][0]
+        if z[0] == 'attr' and z[2] == 'values':
+            return z[1]
+        return None
+    return T.replace(t, f)
+
+
+def len_range_of(path, x, norm=None):
+    """the lengths of x consistent with the path's conditions: (lo, hi, recognised_any)"""
+    lo, hi, seen = 0, None, False
+    for c, v, _ in path.conds:
+        t = len_interval(norm(c) if norm else c, v)
+        if t is not None and t[0] == x:
+            seen = True
+            lo = max(lo, t[1])
+            if t[2] is not None:
+                hi = t[2] if hi is None else min(hi, t[2])
+    return lo, hi, seen
+
+
 def chain_ops(t, stop=None):
     """method/attribute/subscript chain of a term, innermost first: [(root,), ('meth', name, args, kwargs), ('attr', name), ('sub', index), ...]"""
     ops = []
